@@ -6,6 +6,7 @@ CONSTANTS
   ArgVals <- DesignArgs
   StepVals = {1, 2, 3}
   Fuel = 12
+  OneQ = FALSE
   MaxAbs = 8
 INVARIANTS TypeOK FuelOK MachineIsSeqIters SeqNoRepeat SchemeCovers SchemeCount ContraryIsEmpty
 CHECK_DEADLOCK FALSE
